@@ -9,7 +9,7 @@ ORIGIN = 10 ** 9
 MAPFILE = os.path.join(K.REPO, "fixtures", "other", "example-linux")
 
 
-def gen_history(rng, grammar):
+def gen_history(rng, grammar, switches=False):
     """grammar=True: the kernel's record grammar (a FORK, when present, precedes every other record of the new thread; EXIT is its last record until the id is reused).
     Returns a list of abstract records [kind, ...] with strictly increasing timestamps (duplicate sample timestamps excepted)."""
     t = ORIGIN + rng.range(1, 50)
@@ -58,6 +58,18 @@ def gen_history(rng, grammar):
         pid = rng.choice(pids)
         tids = sorted(live[pid])
         tid = rng.choice(tids)
+        if switches and rng.chance(1, 5):
+            # CONTEXT_SWITCH records: of live threads, of the idle thread, and of threads / processes not seen before
+            w = rng.below(10)
+            if w == 0:
+                recs.append(["switch", pid, 0, tick(), rng.chance(1, 2)])
+            elif w == 1:
+                nt = max(max(x for s_ in live.values() for x in s_), next_pid) + rng.range(1, 5)
+                recs.append(["switch", pid, nt, tick(), rng.chance(1, 2)])
+                live[pid].add(nt)
+            else:
+                recs.append(["switch", pid, tid, tick(), rng.chance(1, 2)])
+            continue
         if r < 45:
             ts = tick()
             if rng.chance(1, 10) and (pid, tid) in last_sample:
@@ -144,6 +156,9 @@ def to_perf(recs, shuffle_rng=None):
             out.append((r[3], P.sample(r[1], r[2], r[3], 0x401160, None)))
         elif k == "mmap":
             out.append((r[3], P.mmap2(r[1], r[2], 0x401000, 0x1000, 0x1000, MAPFILE, r[3])))
+        elif k == "switch":
+            out.append((r[3], P.switch(r[1], r[2], r[3], 0, r[4])))
+    has_switch = any(r[0] == "switch" for r in recs)
     rounds = []
     if shuffle_rng is not None:
         # physical order shuffled inside rounds; the reader sorts each round by timestamp.  Equal timestamps (deliberate sample repeats) stay adjacent in file order.
@@ -173,7 +188,7 @@ def to_perf(recs, shuffle_rng=None):
     else:
         data = [b for _, b in out] + [P.finished_round()]
     last = max([ts for ts, _ in out] + [ORIGIN])
-    return P.build(data, first_time=ORIGIN, last_time=last)
+    return P.build(data, first_time=ORIGIN, last_time=last, context_switch=has_switch)
 
 
 def parse_id(v):
@@ -202,7 +217,7 @@ def view(profile):
                 times.append(ns(acc))
         w = st.get("weight")
         weights_ok = (w is None) or all(x == 1 for x in w)
-        out.append({"pid": parse_id(th["pid"]), "tid": parse_id(th["tid"]), "pname": th["processName"], "tname": th["name"], "main": bool(th["isMainThread"]),
+        out.append({"weights": (list(w) if w is not None else None), "pid": parse_id(th["pid"]), "tid": parse_id(th["tid"]), "pname": th["processName"], "tname": th["name"], "main": bool(th["isMainThread"]),
                     "pstart": ns(th["processStartupTime"]), "pend": ns(th["processShutdownTime"]), "tstart": ns(th["registerTime"]), "tend": ns(th["unregisterTime"]),
                     "samples": times, "weights_ok": weights_ok})
     return out
@@ -231,6 +246,8 @@ def coq_records(recs):
             out.append("(RComm %d %d %d %s %d)" % (r[1], r[2], r[3], "true" if r[4] else "false", r[5]))
         elif k == "sample":
             out.append("(RSample %d %d %d)" % (r[1], r[2], r[3]))
+        elif k == "switch":
+            out.append("(RSwitch %d %d)" % (r[1], r[2]))
         else:
             out.append("(RMmap %d %d)" % (r[1], r[2]))
     return K.coq_list(out)
@@ -304,6 +321,18 @@ def evaluate(prop, verdict_fn, cases, stats, extra_args_of=lambda c: (), wrap=No
             c["_out"] = r["error"]
             verdicts[i] = 1
             continue
+        if any(rec[0] == "switch" for rec in c["items"]):
+            # recordings with context-switch records may contain further (off-CPU) samples: weight 1 is only demanded of the recorded samples
+            want = {}
+            for rec in c["items"]:
+                if rec[0] == "sample":
+                    want.setdefault((rec[1], rec[2]), set()).add(rec[3] - ORIGIN)
+            for e in r["view"]:
+                if e.get("weights") is not None:
+                    tt = want.get((e["pid"][0], e["tid"][0]), set())
+                    e["weights_ok"] = all(wv == 1 for tm, wv in zip(e["samples"], e["weights"]) if tm in tt)
+        for e in r["view"]:
+            e.pop("weights", None)
         c["_view"] = r["view"]
         stats["histories"] = stats.get("histories", 0) + 1
         stats["records"] = stats.get("records", 0) + len(c["items"])
